@@ -663,6 +663,8 @@ pub fn families(tier: Tier, _variant: &str) -> Vec<Family> {
     }
     v.push(Family::of_vec("powers-of-ten", power_literals(), |s, ctx| check_number(ctx, s, false)));
     v.push(Family::of_vec("integer-boundaries", boundary_int_literals(), |s, ctx| check_number(ctx, s, true)));
+    // the same literals through RawNumber (accessors must not wrap either)
+    v.push(Family::of_vec("integer-boundaries/RawNumber", boundary_int_literals(), |s, ctx| crate::props::c08::check_raw(ctx, s)));
     v.push(Family::of_vec("exponents", exponent_literals(), |s, ctx| check_number(ctx, s, true)));
     {
         let pats = halfway_bit_patterns(q);
